@@ -88,5 +88,62 @@ Qed.
 Theorem bit_01 : forall d off, 0 <= bit d off <= 1.
 Proof. intros d off. rewrite bit_bytewise. destruct (Z.testbit _ _); cbn; lia. Qed.
 
+(* indA / indB gathering: bit j of the gathered byte is the digest bit selected by ind7[base + j]; nothing else is set *)
+Definition gatherf (f : Z -> bool) : Z :=
+  fold_left (fun acc j => Z.lor acc (Z.shiftl (Z.b2z (f j)) j)) [0;1;2;3;4;5;6;7] 0.
+
+Lemma tb_shl_b2z : forall x j k, 0 <= j -> 0 <= k -> Z.testbit (Z.shiftl (Z.b2z x) j) k = x && (k =? j).
+Proof.
+  intros x j k Hj Hk. destruct (Z_lt_le_dec k j) as [Lo|Hi].
+  - rewrite Z.shiftl_spec_low by lia. replace (k =? j) with false by (symmetry; apply Z.eqb_neq; lia).
+    symmetry. apply andb_false_r.
+  - rewrite Z.shiftl_spec by lia. destruct x; cbn [Z.b2z andb].
+    + change 1 with (2 ^ 0). rewrite Z.pow2_bits_eqb by lia.
+      destruct (Z.eqb_spec 0 (k - j)) as [E|N]; destruct (Z.eqb_spec k j) as [E'|N']; try reflexivity; lia.
+    + apply Z.bits_0.
+Qed.
+
+Lemma gatherf_bit : forall f j, 0 <= j < 8 -> Z.testbit (gatherf f) j = f j.
+Proof.
+  intros f j Hj. unfold gatherf. cbn [fold_left].
+  rewrite !Z.lor_spec, !tb_shl_b2z, Z.bits_0 by lia.
+  assert (C : j = 0 \/ j = 1 \/ j = 2 \/ j = 3 \/ j = 4 \/ j = 5 \/ j = 6 \/ j = 7) by lia.
+  destruct C as [C|[C|[C|[C|[C|[C|[C|C]]]]]]]; subst j; cbn [Z.eqb Pos.eqb];
+    rewrite ?andb_false_r, ?andb_true_r, ?orb_false_r; reflexivity.
+Qed.
+
+Lemma gatherf_bound : forall f, 0 <= gatherf f < 256.
+Proof.
+  intros f. unfold gatherf. cbn [fold_left].
+  destruct (f 0), (f 1), (f 2), (f 3), (f 4), (f 5), (f 6), (f 7); vm_compute; split; (discriminate || reflexivity).
+Qed.
+
+Lemma gather_gatherf : forall d base,
+  gather d base = gatherf (fun j => Z.testbit (dig d ((ind7 d (base + j) mod 128) / 8)) ((ind7 d (base + j) mod 128) mod 8)).
+Proof. intros d base. unfold gather, gatherf. cbn [fold_left]. rewrite !bit_bytewise. reflexivity. Qed.
+
+Theorem gather_bit : forall d base j, Forall byte_ok d -> 0 <= j < 8 ->
+  Z.testbit (gather d base) j = Z.testbit (le_num d) (ind7 d (base + j) mod 128).
+Proof.
+  intros d base j Hd Hj. rewrite gather_gatherf, gatherf_bit by exact Hj.
+  rewrite testbit_le_num by (auto; apply Z.mod_pos_bound; lia). reflexivity.
+Qed.
+
+Theorem gather_bound : forall d base, 0 <= gather d base < 256.
+Proof. intros d base. rewrite gather_gatherf. apply gatherf_bound. Qed.
+
+(* the coin: XOR of two digest bits, selected by the gathered bytes shifted by digest bits i and i+64 (uint32 wrap) *)
+Theorem coin_is_xor_of_digest_bits : forall d i, Forall byte_ok d ->
+  coin d i = xorb (Z.testbit (le_num d) ((Z.land (Z.shiftr (gather d 0) (bit d i)) 127) mod 128))
+                  (Z.testbit (le_num d) ((Z.land (Z.shiftr (gather d 8) (bit d (u32 (i + 64)))) 127) mod 128)).
+Proof.
+  intros d i Hd. unfold coin. cbv zeta. rewrite !(bit_is_testbit d (Z.land _ _)) by exact Hd.
+  destruct (Z.testbit (le_num d) _), (Z.testbit (le_num d) _); reflexivity.
+Qed.
+
+Print Assumptions gather_bit.
+Print Assumptions gather_bound.
+Print Assumptions coin_is_xor_of_digest_bits.
+
 Print Assumptions bit_is_testbit.
 Print Assumptions le_num_bound.
